@@ -153,6 +153,35 @@ theorem U192.of128 (n : U128) : (U192.mk n.w0 n.w1 0).toNat = n.toNat := by
 theorem U192.toNat_mk (a b c : UInt64) :
     (U192.mk a b c).toNat = a.toNat + b.toNat * 2^64 + c.toNat * 2^128 := rfl
 
+theorem U256.toNat_mk (a b c d : UInt64) :
+    (U256.mk a b c d).toNat = a.toNat + b.toNat * 2^64 + c.toNat * 2^128 + d.toNat * 2^192 := rfl
+
+theorem U128.default_eq : (default : U128) = ⟨0, 0⟩ := rfl
+theorem U192.default_eq : (default : U192) = ⟨0, 0, 0⟩ := rfl
+theorem U256.default_eq : (default : U256) = ⟨0, 0, 0, 0⟩ := rfl
+
+/-- `1 << x` as a word is zero exactly for shift counts beyond the width -/
+theorem shl_one_zero_iff (x : UInt64) :
+    (Go.shl (1 : UInt64) (Go.idx x)).toNat = 0 ↔ 64 ≤ x.toNat := by
+  rw [shl_toNat]
+  simp only [UInt64.toNat_one, Nat.one_mul]
+  constructor
+  · intro h
+    by_contra hlt
+    have hlt' : x.toNat < 64 := by omega
+    have : 2 ^ x.toNat < 2 ^ 64 := Nat.pow_lt_pow_right (by norm_num) hlt'
+    rw [Nat.mod_eq_of_lt this] at h
+    have := Nat.two_pow_pos x.toNat
+    omega
+  · intro h
+    have h2 : (2:Nat)^x.toNat = 2^64 * 2^(x.toNat - 64) := by
+      rw [← Nat.pow_add]; congr 1; omega
+    rw [h2, Nat.mul_mod_right]
+
+theorem shl_one_zero_iff' (x : UInt64) :
+    (Go.shl (1 : UInt64) ((x.toNat : Nat) : Int)).toNat = 0 ↔ 64 ≤ x.toNat :=
+  shl_one_zero_iff x
+
 /-! ### fixed-width signed arithmetic without wrap -/
 
 theorem bmod64_id (x : Int) (h0 : -2^63 ≤ x) (h1 : x < 2^63) : x.bmod (2^64) = x := by
@@ -201,6 +230,10 @@ theorem i16_sub_toInt' (a b : Int16)
 
 theorem i16_eq_iff (a b : Int16) : a = b ↔ a.toInt = b.toInt := Int16.toInt_inj.symm
 
+/-- `x.toInt`, hidden from the default simp set (which would expand `(a + b).toInt` to `bmod`);
+unfolded by `i16_norm` -/
+def i16v (x : Int16) : Int := x.toInt
+
 /-- termination measures on `Int16` loop counters -/
 def dn16 (x : Int16) : Nat := (32767 - x.toInt).toNat
 def up16 (x : Int16) : Nat := (x.toInt + 32768).toNat
@@ -213,7 +246,7 @@ by `omega` -/
 macro "i16_norm" : tactic =>
   `(tactic| (
     try simp only [Int16.lt_iff_toInt_lt, Int16.le_iff_toInt_le, i16_eq_iff, Int16.reduceToInt,
-      gt_iff_lt, ge_iff_le, not_lt, not_le, Go.idx, Go.GoInt.toInt, dn16, up16] at *
+      gt_iff_lt, ge_iff_le, not_lt, not_le, Go.idx, Go.GoInt.toInt, dn16, up16, i16v] at *
     try simp (disch := i16_disch) only
       [i16_add_toInt', i16_sub_toInt', i16_neg_toInt, Int16.reduceToInt] at *))
 
@@ -243,6 +276,16 @@ theorem i64_mul_toInt' (a b : Int64)
   obtain ⟨h0, h1⟩ := h a.toInt_lt a.le_toInt
   rw [Int64.toInt_mul]; exact bmod64_id _ h0 h1
 
+theorem conv_i16_i64_toInt (x : Int16) : (Go.conv x : Int64).toInt = x.toInt := by
+  have h0 := x.le_toInt; have h1 := x.toInt_lt
+  show (Int64.ofInt x.toInt).toInt = _
+  rw [Int64.toInt_ofInt]
+  apply Int.bmod_eq_of_le <;> simp only [Int64.size] <;> omega
+
+theorem u64_mul_toNat (a b : UInt64) (h : a.toNat * b.toNat < 2^64) :
+    (a * b).toNat = a.toNat * b.toNat := by
+  rw [UInt64.toNat_mul]; exact Nat.mod_eq_of_lt h
+
 theorem conv_i64_u64_toNat (x : Int64) (h : 0 ≤ x.toInt) :
     (Go.conv x : UInt64).toNat = x.toInt.toNat := by
   have := x.toInt_lt
@@ -255,14 +298,15 @@ def dn64 (x : Int64) : Nat := (9223372036854775807 - x.toInt).toNat
 def up64 (x : Int64) : Nat := (x.toInt + 9223372036854775808).toNat
 
 macro "i64_disch" : tactic =>
-  `(tactic| (intros; (try simp only [Int64.reduceToInt, Int.reducePow, Int.reduceNeg, Int.reduceMul] at *); omega))
+  `(tactic| (intros; (try simp only [Int64.reduceToInt, Int.reducePow, Int.reduceNeg, Int.reduceMul, conv_i16_i64_toInt] at *); omega))
 
 macro "i64_norm" : tactic =>
   `(tactic| (
     try simp only [Int64.lt_iff_toInt_lt, Int64.le_iff_toInt_le, i64_eq_iff, Int64.reduceToInt,
       gt_iff_lt, ge_iff_le, not_lt, not_le, Go.idx, Go.GoInt.toInt, dn64, up64] at *
     try simp (disch := i64_disch) only
-      [i64_add_toInt', i64_sub_toInt', i64_mul_toInt', conv_i64_u64_toNat, Int64.reduceToInt] at *))
+      [i64_add_toInt', i64_sub_toInt', i64_mul_toInt', conv_i64_u64_toNat, conv_i16_i64_toInt,
+       Int64.reduceToInt] at *))
 
 /-! ### table lookups -/
 
@@ -307,21 +351,49 @@ macro "d192_norm" : tactic =>
     try simp only [U384.w5_pos, U384.w5_zero, U384.w4_pos, U384.w4_zero, U384.low256,
       U256.w3_le, U256.w3_lt, U256.w3_pos, U256.w3_zero, U256.low192,
       U192.w2_le, U192.le_w2, U192.w2_lt, U192.lt_w2, U192.w2_zero,
-      U192_add_toNat, U192_lsh_toNat, U192_sub_snd_zero, U192_sub_fst_toNat, U192_twos_toNat,
+      U192_add_toNat, U192_lsh_toNat, U192.of128, U192_sub_snd_zero, U192_sub_fst_toNat, U192_twos_toNat,
       UInt64.toNat_ofNat, UInt64.toNat_zero, UInt64.toNat_one, UInt64.reduceToNat,
       Nat.reducePow, Nat.reduceMul, Nat.reduceAdd, Nat.reduceMod,
       ne_eq, not_lt, not_le, gt_iff_lt, ge_iff_le] at *
-    try simp only [U192.toNat_mk, UInt64.toNat_ofNat, UInt64.toNat_zero, UInt64.toNat_one,
+    try simp only [U192.toNat_mk, U256.toNat_mk, U128.default_eq, U192.default_eq, U256.default_eq,
+      shl_one_zero_iff, shl_one_zero_iff',
+      UInt64.toNat_ofNat, UInt64.toNat_zero, UInt64.toNat_one,
       UInt64.reduceToNat, Nat.reducePow, Nat.reduceMul, Nat.reduceAdd, Nat.reduceMod] at *
     try simp only [UInt64.lt_iff_toNat_lt, UInt64.le_iff_toNat_le, u64_zero_iff,
       UInt64.toNat_ofNat, UInt64.toNat_zero, UInt64.toNat_one, UInt64.reduceToNat] at *
     try simp (disch := d192_disch) only [U192_mul64_toNat_of_lt, Nat.mod_eq_of_lt, u64_sub_toNat,
-      u64_add_toNat,
+      u64_add_toNat, u64_mul_toNat,
       UInt64.toNat_ofNat, UInt64.reduceToNat, Nat.reducePow, Nat.reduceMul, Nat.reduceMod] at *))
+
+open Lean in
+/-- closed subterms `f x` with `f` one of the given unary constants -/
+partial def collectToNat (tbl : List (Name × List Name)) (e : Expr) (acc : Array (Name × Expr)) :
+    Array (Name × Expr) :=
+  let acc :=
+    if e.isApp && e.getAppNumArgs == 1 && !e.hasLooseBVars then
+      match e.getAppFn.constName? with
+      | some n =>
+        match tbl.lookup n with
+        | some lems =>
+          let x := e.appArg!
+          lems.foldl (fun acc lem =>
+            if acc.any (fun p => p.1 == lem && p.2 == x) then acc else acc.push (lem, x)) acc
+        | none => acc
+      | none => acc
+    else acc
+  match e with
+  | .app f a => collectToNat tbl a (collectToNat tbl f acc)
+  | .lam _ t b _ => collectToNat tbl b (collectToNat tbl t acc)
+  | .forallE _ t b _ => collectToNat tbl b (collectToNat tbl t acc)
+  | .letE _ t v b _ => collectToNat tbl b (collectToNat tbl v (collectToNat tbl t acc))
+  | .mdata _ b => collectToNat tbl b acc
+  | .proj _ _ b => collectToNat tbl b acc
+  | _ => acc
 
 open Lean Elab Tactic Meta in
 /-- add `x.toNat < 2^k` for every closed subterm `U192.toNat x`, `U256.toNat x`, `U384.toNat x`,
-`UInt64.toNat x` occurring in the hypotheses or the goal (facts `omega` does not know) -/
+`U128.toNat x`, `UInt64.toNat x` occurring in the hypotheses or the goal (facts `omega` does not
+know) -/
 elab "toNat_bounds" : tactic => do
   if (← getGoals).isEmpty then return
   withMainContext do
@@ -331,35 +403,25 @@ elab "toNat_bounds" : tactic => do
   for d in lctx do
     if d.isImplementationDetail then continue
     tys := tys.push (← instantiateMVars d.type)
-  let tbl : List (Name × Name) :=
-    [(``U192.toNat, ``D128.Proofs.WordsWide.U192.toNat_lt),
-     (``U256.toNat, ``D128.Proofs.WordsWide.U256.toNat_lt),
-     (``U384.toNat, ``D128.Proofs.WordsWide.U384.toNat_lt),
-     (``U128.toNat, ``U128.toNat_lt),
-     (``UInt64.toNat, ``UInt64.toNat_lt)]
-  let ref ← IO.mkRef (#[] : Array (Name × Expr))
+  let tbl : List (Name × List Name) :=
+    [(``U192.toNat, [``D128.Proofs.WordsWide.U192.toNat_lt]),
+     (``U256.toNat, [``D128.Proofs.WordsWide.U256.toNat_lt]),
+     (``U384.toNat, [``D128.Proofs.WordsWide.U384.toNat_lt]),
+     (``U128.toNat, [``U128.toNat_lt]),
+     (``UInt64.toNat, [``UInt64.toNat_lt]),
+     (``Int16.toInt, [``Int16.le_toInt, ``Int16.toInt_lt]),
+     (``Int64.toInt, [``Int64.le_toInt, ``Int64.toInt_lt])]
+  let mut found : Array (Name × Expr) := #[]
   for ty in tys do
-    Meta.forEachExpr ty fun e => do
-      if e.hasLooseBVars then return
-      if e.isApp && e.getAppNumArgs == 1 then
-        match e.getAppFn.constName? with
-        | some n =>
-          match tbl.lookup n with
-          | some lem =>
-            let x := e.appArg!
-            let fv := (collectFVars {} x).fvarIds
-            if fv.all (fun f => lctx.contains f) then
-              let cur ← ref.get
-              unless cur.any (fun p => p.1 == lem && p.2 == x) do
-                ref.set (cur.push (lem, x))
-          | none => pure ()
-        | none => pure ()
+    found := collectToNat tbl ty found
   let mut g := g
-  for (lem, x) in (← ref.get) do
-    let pf := mkApp (mkConst lem) x
-    let ty ← inferType pf
-    let (_, g') ← (← g.assert `hb ty pf).intro1
-    g := g'
+  for (lem, x) in found do
+    let fv := (collectFVars {} x).fvarIds
+    if fv.all (fun f => lctx.contains f) then
+      let pf := mkApp (mkConst lem) x
+      let ty ← inferType pf
+      let (_, g') ← (← g.assert `hb ty pf).intro1
+      g := g'
   replaceMainGoal [g]
 
 open Lean Elab Tactic Meta in
@@ -389,7 +451,7 @@ macro "d192_close" : tactic =>
 /-- full preparation of a verification condition: use equations among the hypotheses (reduces the
 `match` of early-return loops), word tests and `Int16` arithmetic to `toNat`/`toInt`, add bounds -/
 macro "d192_prep" : tactic =>
-  `(tactic| (opt_eqs <;> d192_norm <;> i16_norm <;> i64_norm <;> toNat_bounds))
+  `(tactic| (opt_eqs; d192_norm; i16_norm; i64_norm; toNat_bounds; i16_norm; i64_norm))
 
 macro "d192_fin1" : tactic => `(tactic| first | omega | trivial | grind)
 
